@@ -34,7 +34,17 @@ def make_trace(mod, verif_seed, pid, tier, idx):
         t = mod.index_trace(idx, tier, verif_seed)
         if t is not None:
             return t
-    return mod.gen_trace(run_seed(verif_seed, pid, tier, idx), tier)
+    seed = run_seed(verif_seed, pid, tier, idx)
+    t = mod.gen_trace(seed, tier)
+    if isinstance(t.get("config"), dict) and "tz" not in t["config"]:
+        # the process time zone is part of every run's simulated environment (POSIX rule strings: east, west, with and without DST)
+        from .rng import Streams
+        t["config"]["tz"] = Streams(seed)("tz").choice(TZ_POOL)
+    return t
+
+
+TZ_POOL = ["UTC", "UTC", "UTC", "JST-9", "HST10", "CET-1CEST,M3.5.0,M10.5.0/3", "EST5EDT,M3.2.0,M11.1.0", "IST-5:30",
+           "NZST-12NZDT,M9.5.0,M4.1.0/3", "<+14>-14", "<-12>12"]
 
 
 # ---- worker ---------------------------------------------------------------------------------------
